@@ -572,6 +572,25 @@ func (g *gen) specCall(e *env, n *ast.CallExpr) sval {
 			return sval{t: g.listLen(e.st, v.t), gt: tInt, sort: "Int"}
 		}
 		g.specFail(n, "len of sort %s", v.sort)
+	case "allnodes":
+		// allnodes(n, body): body holds for every allocated document node n (n ranges over *CandidateNode)
+		if len(n.Args) != 2 {
+			g.specFail(n, "allnodes(n, body)")
+		}
+		ce := e.child()
+		v := bvar(0)
+		bn := "q." + v + "." + fmt.Sprint(g.nextQ())
+		ce.names[v] = sval{t: bn, gt: g.P.candidateNodePtr(), sort: "Int"}
+		b := g.specBool(ce, n.Args[1])
+		inner := sImp(sAnd(app("<", "0", bn), app("<=", bn, e.st.top)), b)
+		if pats := inferPatterns(b, []string{bn}); len(pats) > 0 {
+			var ps strings.Builder
+			for _, p := range pats {
+				ps.WriteString(" :pattern (" + p + ")")
+			}
+			inner = "(! " + inner + ps.String() + ")"
+		}
+		return sval{t: fmt.Sprintf("(forall ((%s Int)) %s)", bn, inner), gt: tBool, sort: "Bool"}
 	case "forall", "exists":
 		ce := e.child()
 		var vars []string
@@ -652,8 +671,13 @@ func (g *gen) specCall(e *env, n *ast.CallExpr) sval {
 		v := arg(0)
 		return sval{t: sAnd(app("<=", v.t, e.st.top)), gt: tBool, sort: "Bool"}
 	case "preexisting":
+		// allocated before the function (at a call site: before the call) began
 		v := arg(0)
-		return sval{t: sAnd(app("<=", v.t, g.top0), app(">", v.t, "0")), gt: tBool, sort: "Bool"}
+		base := g.top0
+		if e.freshBase != "" {
+			base = e.freshBase
+		}
+		return sval{t: sAnd(app("<=", v.t, base), app(">", v.t, "0")), gt: tBool, sort: "Bool"}
 	case "int", "int64", "uint", "rune", "byte", "int32", "uint32", "uint64":
 		return arg(0)
 	case "float64":
